@@ -11,7 +11,12 @@ use sudachi::analysis::mlist::MorphemeList;
 use sudachi::dic::build::DictBuilder;
 use sudachi::dic::header::Header;
 use sudachi::dic::subset::InfoSubset;
+use sudachi::analysis::stateful_tokenizer::StatefulTokenizer;
+use sudachi::config::ConfigBuilder;
+use sudachi::dic::dictionary::JapaneseDictionary;
+use sudachi::dic::storage::{Storage, SudachiDicData};
 use sudachi::dic::DictionaryLoader;
+use sudachi::prelude::Mode;
 
 const POS: [&str; 3] = ["名詞,普通名詞,一般,*,*,*", "助詞,格助詞,*,*,*,*", "動詞,一般,*,*,五段-サ行,終止形-一般"];
 
@@ -29,6 +34,28 @@ pub fn hex(b: &[u8]) -> String {
     s
 }
 
+/// hex with runs of zero bytes as `z` + 4 hex digits (count); decoded by Model/Trie.v hexz_bytes
+pub fn hexz(b: &[u8]) -> String {
+    let mut s = String::new();
+    let mut i = 0;
+    while i < b.len() {
+        if b[i] == 0 {
+            let mut j = i;
+            while j < b.len() && b[j] == 0 && j - i < 0xffff {
+                j += 1;
+            }
+            if j - i >= 3 {
+                s.push_str(&format!("z{:04x}", j - i));
+                i = j;
+                continue;
+            }
+        }
+        s.push_str(&format!("{:02x}", b[i]));
+        i += 1;
+    }
+    s
+}
+
 pub fn matrix() -> Vec<u8> {
     std::fs::read(format!("{}/sudachi/tests/resources/matrix_10x10.def", repo())).expect("matrix_10x10.def")
 }
@@ -38,14 +65,59 @@ fn render(rows: &[Row], rng: &mut Rng) -> String {
     for r in rows {
         let (l, rt) = if r.left < 0 { (-1i16, -1i16) } else { (r.left, r.left) };
         let pos = *rng.pick(&POS);
-        s.push_str(&format!("{},{},{},{},{},{},*,*,*,A,*,*,*,*\n", r.surface, l, rt, rng.range(-500, 9000), r.surface, pos));
+        s.push_str(&format!("{},{},{},{},{},{},*,*,*,A,*,*,*,*\n", csv_field(&r.surface), l, rt, rng.range(-500, 9000), csv_field(&r.surface), pos));
     }
     s
 }
 
 /// small alphabets with 1-, 2-, 3- and 4-byte characters so that keys share prefixes at byte level too
 // ('#' and '\'' are ordinary key characters for the dictionary but meaningful to some CSV dialects)
-const ALPHA: [&str; 16] = ["a", "#", "b", "é", "ä", "あ", "い", "ア", "'", "京", "亰", "東", "𠮟", "𠮷", "\u{10FFFF}", "\u{7f}"];
+// (' ', ',' and '"' too: a surface may contain them -- the CSV field is then quoted -- and they must neither be trimmed nor split)
+const ALPHA: [&str; 19] = ["a", "#", "b", " ", "é", "ä", "あ", ",", "い", "ア", "'", "京", "\"", "亰", "東", "𠮟", "𠮷", "\u{10FFFF}", "\u{7f}"];
+
+/// a CSV field as the csv crate's default dialect wants it: quoted when it holds a comma, a quote, a line break or outer blanks
+fn csv_field(s: &str) -> String {
+    if s.contains(',') || s.contains('"') || s.contains('\n') || s.starts_with(' ') || s.ends_with(' ') {
+        format!("\"{}\"", s.replace('"', "\"\""))
+    } else {
+        s.to_string()
+    }
+}
+
+/// independent reading of a lexicon CSV as far as lookup is concerned: EVERY line is a row (no header, no comment lines),
+/// fields are separated by commas outside double quotes, a doubled quote inside quotes is one quote, nothing is trimmed
+fn split_record(line: &str) -> Vec<String> {
+    let mut out = vec![];
+    let mut cur = String::new();
+    let mut quoted = false;
+    let mut it = line.chars().peekable();
+    let mut at_start = true;
+    while let Some(c) = it.next() {
+        if quoted {
+            if c == '"' {
+                if it.peek() == Some(&'"') {
+                    cur.push('"');
+                    it.next();
+                } else {
+                    quoted = false;
+                }
+            } else {
+                cur.push(c);
+            }
+        } else if c == '"' && at_start {
+            quoted = true;
+        } else if c == ',' {
+            out.push(std::mem::take(&mut cur));
+            at_start = true;
+            continue;
+        } else {
+            cur.push(c);
+        }
+        at_start = false;
+    }
+    out.push(cur);
+    out
+}
 
 fn gen_surface(rng: &mut Rng, existing: &[Row]) -> String {
     let k = rng.below(10);
@@ -71,7 +143,7 @@ fn gen_surface(rng: &mut Rng, existing: &[Row]) -> String {
     let n = 1 + rng.below(4);
     let mut s = String::new();
     // sub-alphabet per key keeps collisions frequent
-    let lo = rng.below(12) as usize;
+    let lo = rng.below(15) as usize;
     for _ in 0..n {
         s.push_str(ALPHA[lo + rng.below(4) as usize]);
     }
@@ -170,6 +242,72 @@ fn naive(all: &[Vec<Row>], text: &[u8], off: usize) -> Vec<(u32, usize)> {
     v
 }
 
+/// The dictionary nodes of the implementation's lattice for `text` (hook Lattice::verif_nodes), per character position the
+/// loop of build_lattice processed, against the CSV: (Coq term for check_lattice, first discrepancy found by the Rust oracle)
+fn lattice_obs(dict: &JapaneseDictionary, all: &[Vec<Row>], text: &str, verbose: bool) -> Result<(String, Option<String>), String> {
+    let tb = text.as_bytes();
+    let mut tok = StatefulTokenizer::create(dict, false, Mode::C);
+    tok.reset().push_str(text);
+    tok.do_tokenize().map_err(|e| format!("{:?}", e))?;
+    let lat = tok.verif_lattice();
+    let inp = tok.verif_input();
+    if inp.current() != text {
+        return Err("the analysed text was rewritten although no input text plugin is configured".to_string());
+    }
+    let n = lat.verif_size() - 1;
+    let offs: Vec<usize> = inp.curr_byte_offsets().to_vec();
+    let mut by_begin: Vec<Vec<(u32, usize)>> = vec![vec![]; n + 1];
+    let mut ends_here = vec![false; n + 1];
+    for e in 1..=n {
+        for nd in lat.verif_nodes(e) {
+            ends_here[e] = true;
+            if nd.word_id >> 28 != 15 {
+                by_begin[nd.begin].push((nd.word_id, e));
+            }
+        }
+    }
+    let mut bad: Option<String> = None;
+    let mut obs = vec![];
+    for p in 0..n {
+        if p != 0 && !ends_here[p] {
+            if !by_begin[p].is_empty() && bad.is_none() {
+                bad = Some(format!("text {:?}: nodes begin at character {} although nothing ends there", text, p));
+            }
+            continue;
+        }
+        let mut want: Vec<(u32, usize)> = vec![];
+        for (w, e) in naive(all, tb, offs[p]) {
+            if e < tb.len() && !inp.can_bow(e) {
+                continue;
+            }
+            if !text.is_char_boundary(e) {
+                if bad.is_none() {
+                    bad = Some(format!("text {:?}: entry {:#x} found at byte {} ends at byte {}, inside a character", text, w, offs[p], e));
+                }
+                continue;
+            }
+            want.push((w, text[..e].chars().count()));
+        }
+        want.sort();
+        let mut got = by_begin[p].clone();
+        got.sort();
+        if verbose {
+            println!("lattice text={:?} char {} (byte {}): dictionary nodes (word id, char end) {:?}; CSV + can_bow gives {:?}", text, p, offs[p], got, want);
+        }
+        if got != want && bad.is_none() {
+            bad = Some(format!("text {:?}: dictionary nodes beginning at character {} (byte {}) are {:?} (word id, char end), CSV scan + can_bow filter gives {:?}", text, p, offs[p], got, want));
+        }
+        for (_, e) in &got {
+            if !(p < *e && *e <= n) && bad.is_none() {
+                bad = Some(format!("text {:?}: node at character {} has end {} outside ({}, {}]", text, p, e, p, n));
+            }
+        }
+        obs.push(format!("({}%nat, {})", p, clist(by_begin[p].iter().map(|(w, e)| cpair(&cn(*w), &cnu(*e))))));
+    }
+    let bow: Vec<u8> = (0..tb.len()).map(|i| if inp.can_bow(i) { 1 } else { 0 }).collect();
+    Ok((format!("(\"{}\"%string, \"{}\"%string, {})", hex(tb), hex(&bow), clist(obs)), bad))
+}
+
 fn gen_text(rng: &mut Rng, all: &[Vec<Row>]) -> String {
     let mut s = String::new();
     let n = 1 + rng.below(4);
@@ -208,8 +346,8 @@ fn parse_rows(csv: &str) -> Vec<Row> {
     csv.lines()
         .filter(|l| !l.is_empty())
         .map(|l| {
-            let c: Vec<&str> = l.split(',').collect();
-            Row { surface: c[0].to_string(), left: c[1].parse().unwrap() }
+            let c = split_record(l);
+            Row { surface: c[0].clone(), left: c[1].parse().unwrap() }
         })
         .collect()
 }
@@ -300,6 +438,52 @@ fn run_case(sink: &mut Sink, csvs: &[String], texts: &[String], exacts: &[String
         }
         qterms.push(format!("(\"{}\"%string, {})", hex(tb), clist(outs)));
     }
+    // the same stack as a JapaneseDictionary: the lattice nodes build_lattice makes from lookup results
+    let mut lterms = vec![];
+    {
+        let pos0: Vec<&str> = POS[0].split(',').collect();
+        let cfgj = json!({"path": format!("{}/sudachi/tests/resources", repo()), "characterDefinitionFile": "char.def",
+            "oovProviderPlugin": [{"class": "com.worksap.nlp.sudachi.SimpleOovPlugin", "oovPOS": pos0, "leftId": 0, "rightId": 0, "cost": 30000, "userPOS": "allow"}]})
+        .to_string();
+        let r = catch(|| -> Result<JapaneseDictionary, String> {
+            let cfg = ConfigBuilder::from_bytes(cfgj.as_bytes()).map_err(|e| format!("{:?}", e))?.build();
+            let mut st = SudachiDicData::new(Storage::Owned(bins[0].clone()));
+            for b in bins.iter().skip(1) {
+                st.add_user(Storage::Owned(b.clone()));
+            }
+            JapaneseDictionary::from_cfg_storage(&cfg, st).map_err(|e| format!("{:?}", e))
+        });
+        match r {
+            Ok(Ok(dict)) => {
+                for t in texts {
+                    match catch(|| lattice_obs(&dict, &all, t, verbose)) {
+                        Ok(Ok((term, b))) => {
+                            lterms.push(term);
+                            sink.tag("lattice_checked");
+                            if bad.is_none() {
+                                bad = b;
+                            }
+                        }
+                        Ok(Err(e)) => {
+                            if bad.is_none() {
+                                bad = Some(format!("tokenizing {:?} failed: {}", t, e));
+                            }
+                        }
+                        Err(p) => {
+                            if bad.is_none() {
+                                bad = Some(format!("tokenizing {:?} panicked: {}", t, p));
+                            }
+                        }
+                    }
+                }
+            }
+            Ok(Err(e)) | Err(e) => {
+                if bad.is_none() {
+                    bad = Some(format!("the stack does not load as a JapaneseDictionary: {}", e));
+                }
+            }
+        }
+    }
     let mut eterms = vec![];
     for q in exacts {
         let r = catch(|| {
@@ -353,10 +537,10 @@ fn run_case(sink: &mut Sink, csvs: &[String], texts: &[String], exacts: &[String
             fuel = fuel.max(r.surface.len() + 1);
             format!("(\"{}\"%string, {})", hex(r.surface.as_bytes()), cz(r.left as i64))
         }));
-        dterms.push(format!("(\"{}\"%string, \"{}\"%string, {})", hex(&trie), hex(&tbl), rows));
+        dterms.push(format!("(\"{}\"%string, \"{}\"%string, {})", hexz(&trie), hex(&tbl), rows));
         sink.tag(&format!("trie_units={}", trie.len() / 4 / 256 * 256));
     }
-    let term = format!("check_case_c04 {} {}%nat {} {}", clist(dterms), fuel, clist(qterms), clist(eterms));
+    let term = format!("check_case_c04L {} {}%nat {} {} {}", clist(dterms), fuel, clist(qterms), clist(eterms), clist(lterms));
     // shape tags
     sink.tag(&format!("layers={}", csvs.len()));
     let nrows: usize = all.iter().map(|r| r.len()).sum();
@@ -437,7 +621,7 @@ fn gen_case(rng: &mut Rng, layers: usize, shape: u64) -> (Vec<String>, Vec<Strin
 }
 
 pub fn run(args: &Args) {
-    let mut sink = Sink::new("C04", &args.out, &["Model.LexSet"], args.seed, &args.tier);
+    let mut sink = Sink::new("C04", &args.out, &["Model.LexSet", "Model.IndexBuild", "Model.DictCands"], args.seed, &args.tier);
     sink.shard_size = 12;
     sink.rule("stacks of 1..15 dictionaries compiled by DictBuilder from generated CSVs (keys over a 16-letter alphabet of 1/2/3/4-byte characters incl. '#' and the apostrophe; keys extended/cut from other keys so that keys are prefixes of others; homographs up to 127; keys shared between layers; left_id=-1 rows) x texts concatenated from keys and letters, LexiconSet::lookup at EVERY byte offset (incl. inside characters) x exact-surface MorphemeList::lookup of keys / near-keys; each case also certifies every trie with the verified enumerator; non-trivial = at least 2 entries returned and (a key is a proper prefix of another, or homographs, or more than one layer); distinct by generated Coq term");
     if let Some(p) = &args.replay {
